@@ -1,9 +1,9 @@
 import Proofs.C05Value
 /-!
-  C05 / value decoders: the proposed fixes (props/C05.val.fix-1..7.diff, `fx := true`) are
+  C05 / value decoders: the proposed fixes (props/C05.fix-11..7.diff, `fx := true`) are
   CONSERVATIVE: on every input on which the code as it is returns (ok or err, no crash) the fixed code
   returns the same outcome; only the crashing inputs change (C05_values_total_fixed: to ok or err).
-  For fix-7 (count bounded by the remaining bytes) this needs: a body that cannot hold `cnt` element
+  For fix-15 (count bounded by the remaining bytes) this needs: a body that cannot hold `cnt` element
   headers never decodes to ok (`listLoop_short_not_ok`, `mapLoop_short_not_ok`).
 -/
 namespace C05Value
@@ -72,7 +72,7 @@ theorem goType_agree : ∀ t : CT, Agree (goType false t) (goType true t)
       apply agree_bind (goType_agree v); intro gv
       split
       · exact agree_refl _
-      · exact crashOrErr_agree _
+      · exact agree_refl _
   | .tuple _ => by simp only [goType]; exact agree_refl _
   | .udt _ => by simp only [goType]; exact agree_refl _
 
